@@ -49,6 +49,7 @@ def run_histories(out, tooldir, env, specs, hists, name, pid, compare=True):
     rl, ml = {}, {}
     for k in acc:
         rl[k] = rt.renumber([rt.canon(x) for x in real[k]["lines"]])
+        obs[k]["rt_raw"] = real[k]["lines"]          # the probe's structured descriptions (for oracles that do not want to parse text)
         if real[k]["rc"] != 0:
             out.violation("probe-crash", "the generated container crashed the probe: %s" % real[k]["stderr"][-400:], dict(common.slim(specs[k], obs[k]), history=hists[k], stderr=real[k]["stderr"]))
         if mod is not None:
